@@ -271,6 +271,92 @@ func paramDepsWhole(fn *ssa.Function, v ssa.Value) map[string]bool {
 	return out
 }
 
+// checkClosestTaggedAncestor implements R11.8 on the range-over-func lowering of go/ssa: a `for x := range seq` body is a
+// synthetic yield closure that returns true to go on and false to stop; a break that leaves more than the innermost
+// range stores a positive code into the enclosing jump cell before returning false.
+func checkClosestTaggedAncestor(p *core.Prog, r *core.Result, rule string) {
+	fn := need(p, r, rule, "internal/mvs", "querier", "resolveRefQuery")
+	if fn == nil {
+		return
+	}
+	isRevision := func(t types.Type) bool {
+		n, ok := t.(*types.Named)
+		return ok && n.Obj().Name() == "Revision" && n.Obj().Pkg() != nil && strings.HasSuffix(n.Obj().Pkg().Path(), "internal/vcs")
+	}
+	// the yield function of the walk over the history: a synthetic closure with one parameter of type vcs.Revision
+	var walk *ssa.Function
+	for _, f := range core.WithAnons(fn) {
+		if f != fn && strings.Contains(f.Synthetic, "range-over-func") && len(f.Params) == 1 && isRevision(f.Params[0].Type()) {
+			walk = f
+		}
+	}
+	if walk == nil {
+		r.Unk(rule, fname(fn)+"#history-walk", p.Pos(fn.Pos()), "the walk over the revision's history is not a range over History() any more: the shape is not recognised")
+		return
+	}
+	returnsFalse := func(f *ssa.Function) []*ssa.Return {
+		var out []*ssa.Return
+		for _, ret := range core.ReturnsOf(f) {
+			if len(ret.Results) == 1 {
+				if b, ok := core.ConstBool(ret.Results[0]); ok && !b {
+					out = append(out, ret)
+				}
+			}
+		}
+		return out
+	}
+	stops := returnsFalse(walk)
+	r.Check(len(stops) > 0, rule, fname(fn)+"#history-walk-can-stop", p.Pos(walk.Pos()), "the walk over the history can be left early", "the walk over the history is never left early: after the closest tagged ancestor has been found, every older tagged ancestor overwrites it, so the ref is resolved against the oldest release on its history (a pseudo-version below releases the ref is ahead of: an upgrade by ref lowers the project; a ref at a tagged revision does not resolve to that tag)")
+	// the match: the cell whose value decides the base version - a **vcs.Version local of resolveRefQuery stored inside the walk
+	n := 0
+	for _, f := range core.WithAnons(walk) {
+		core.Instrs(f, func(in ssa.Instruction) {
+			st, ok := in.(*ssa.Store)
+			if !ok {
+				return
+			}
+			fv, ok := st.Addr.(*ssa.FreeVar)
+			if !ok || !strings.HasSuffix(fv.Type().String(), "internal/vcs.Version") {
+				return
+			}
+			n++
+			// after the assignment the enclosing loop is left ...
+			leaves := false
+			var code int64 = -1
+			for _, ret := range returnsFalse(f) {
+				if core.InstrReaches(st, ret) {
+					leaves = true
+				}
+			}
+			// every return reachable from the assignment is a `return false`
+			onlyStops := true
+			for _, ret := range core.ReturnsOf(f) {
+				if !core.InstrReaches(st, ret) {
+					continue
+				}
+				if b, ok := core.ConstBool(ret.Results[0]); !ok || b {
+					onlyStops = false
+				}
+			}
+			// ... with an exit code that reaches beyond this range when the assignment sits in a nested one
+			if f != walk {
+				for _, in2 := range st.Block().Instrs {
+					if s2, ok := in2.(*ssa.Store); ok {
+						if jv, ok := s2.Addr.(*ssa.FreeVar); ok && strings.HasPrefix(jv.Name(), "jump$") {
+							if k, ok := core.ConstInt(s2.Val); ok {
+								code = k
+							}
+						}
+					}
+				}
+			}
+			okExit := leaves && onlyStops && (f == walk || code >= 1)
+			r.Check(okExit, rule, fmt.Sprintf("%s#match-%d-ends-the-walk", fname(fn), n), p.InstrPos(st), "the assignment of the matching version leaves the walk over the history", "after the matching version has been assigned only the inner search is left (or nothing at all): the walk goes on to older ancestors, whose tags overwrite the match")
+		})
+	}
+	r.Floor(rule, n, 1, "assignments of the matching version inside the history walk")
+}
+
 // checkSharedCloneLocked implements R10.9 (lock-set analysis per function, closures included).
 func checkSharedCloneLocked(p *core.Prog, r *core.Result, rule string) {
 	pkgVcs := core.ModulePath + "/internal/vcs"
@@ -1145,11 +1231,15 @@ func runC11(p *core.Prog, r *core.Result) {
 		"R11.6 the base argument of the MVS library's ReqList is nil or built from the build list of the same call (never from the root's pre-edit requirements), so no requirement is written back with an empty version",
 		"R11.5 get decides between upgrade, downgrade and no-op by comparing the requested version with the version selected in the build list, not with the root's own requirement entry",
 		"R11.4 requesting the version that is already selected returns the root's requirements unchanged",
+		"R11.8 a ref resolves against its closest tagged ancestor: in resolveRefQuery the walk over the revision's history (newest first) can be left - the yield function of the range over History() has a `return false` - and the assignment of the matching version is followed by leaving its loop with an exit that goes beyond the enclosing search; otherwise every older tagged ancestor overwrites the match, the pseudo-version is based on the oldest release, and an upgrade by ref lowers the project",
 		"R11.7 the version lists and summaries that upgrade, downgrade and tidy consult come from resolver caches keyed by the whole of what the cached value was computed from (two major versions of one project path do not share an entry): an edit cannot be answered with another project's versions (rule shared with C10 R10.1)",
 	}
 	r.NotDecided = []string{"build-list equalities after tidy/upgrade/downgrade (algorithm in a dependency; behavioural)", "query resolution against tagged versions (ranges, latest, patch)"}
 	// ---- R11.7
 	checkResolverCaches(p, r, "R11.7")
+
+	// ---- R11.8
+	checkClosestTaggedAncestor(p, r, "R11.8")
 	// ---- R11.1
 	impls := 0
 	for _, fn := range p.ModuleFuncs() {
